@@ -3,18 +3,23 @@
  S/I spec/X05_Ide.tla       two users + the master library, two files (t1: lemma la, theorem lb; t2 imports t1: lc), five contents; the
                             state the server keeps between requests (metadata snapshot, ProofCache, global theory) with one switch per
                             mechanism (TRUE = what the statement needs, FALSE = as coded); requests find / load / save / remove / check /
-                            init / reinit / apply / search; invariants Totality, Persistence, SaveExact, RemoveExact, ReadOnly, Faithful,
-                            FailedStepKeeps, Isolation (shadow server per user).  TLC: all behaviours of <= 4 (thorough 6) requests with
-                            every switch TRUE; one run per switch FALSE (must violate; its counterexample is a discriminating history);
-                            all behaviours of 2 requests and simulated ones of 6 are EMITTED
- ->  harness/drivers/x05.py replay: every emitted behaviour / counterexample performed on the real Flask application through
-                            app.test_client() on fresh scratch users; multi-user behaviours also once per user alone (solo twins);
+                            init / reinit / initbad / apply / search; clauses Totality, Persistence, SaveExact, RemoveExact, ReadOnly,
+                            Faithful, FailedStepKeeps, Isolation (shadow server per user).  TLC: ALL behaviours of <= 4 (thorough 6)
+                            requests with every switch TRUE (each step judged by an Assert in the action); one run per switch FALSE
+                            (quick: three of them; must violate an invariant, the counterexample is a vector); every mechanism as coded:
+                            all behaviours of <= 3 requests up to the first broken clause (discriminating histories); all behaviours of
+                            2 requests (thorough: and of 3 that begin by opening a proof) and simulated ones of 6 are EMITTED
+ ->  harness/drivers/x05.py replay: every emitted behaviour performed on the real Flask application through app.test_client() on fresh
+                            scratch users; multi-user behaviours also once per user alone (solo twins);
                             sessions: seeded sessions on copies of library files (recorded proofs step by step through apply-method, failing
-                            steps, searches, jumps, saves, removals, a second user in between); oracle: the lower layers called directly in
-                            a fresh process on the same files (reference for check-modify / init-saved-proof / apply-method / search-method)
- T   spec/X05_IdeTrace.tla  the reference model of the directories replayed along every session; per request: Totality, SaveExact,
-                            RemoveExact, ReadOnly, Persistence, EditRoundTrip, Faithful, FailedStepKeeps, Isolation (+ the bindings
-                            OracleBinding / SoloBinding); divergence = the abstract answer predicted by X05_Ide differs
+                            steps, searches, jumps, saves, removals, unparsable statements, a second user in between) + their solo twins;
+                            oracle: the lower layers called directly in a fresh process on the same files (reference for check-modify /
+                            init-saved-proof / apply-method / search-method)
+ T   spec/X05_IdeTrace.tla  the model of the directories replayed along every session; per request: Totality, SaveExact, RemoveExact,
+                            ReadOnly, Persistence, EditRoundTrip, Faithful, FailedStepKeeps, Isolation (+ the bindings OracleBinding /
+                            SoloBinding, which are machinery); divergence = the abstract answer predicted by X05_Ide differs
+ Findings are grouped by (clause, request kind, answer class, exception class); the replay file holds the concrete session
+ (`./check X05 --replay f` performs it again on the current tree).
 """
 import copy
 import json
